@@ -27,7 +27,7 @@ var c10Dict = map[string][]string{
 	"xml": {"<", ">", "</", "/>", "<?xml version=\"1.0\" encoding=\"", "?>", "<!--", "-->", "<![CDATA[", "]]>", "<!DOCTYPE ", "<!ENTITY ", "[", "]>", "&amp;", "&#x", "&#", ";", "&x;", " xmlns=\"", " xmlns:a=\"", "a:", "=\"", "='", "\"", "'",
 		"http://www.sitemaps.org/schemas/sitemap/0.9", "sitemaps.org/schemas/sitemap/", "<urlset", "<loc>", "</loc>", "http", "https://", "UTF-16", "ISO-8859-1", "GB2312", "UTF-32", "utf-7", "Shift_JIS", "windows-1252", "TIS-620", "ISO-2022-KR", "\x00", "\xff\xfe", "\xef\xbb\xbf"},
 	"s3": {"<ListBucketResult>", "</ListBucketResult>", "<Contents>", "</Contents>", "<Key>", "</Key>", "<Size>", "</Size>", "<CommonPrefixes>", "</CommonPrefixes>", "<Prefix>", "</Prefix>", "<IsTruncated>", "true", "</IsTruncated>",
-		"<NextContinuationToken>", "</NextContinuationToken>", "<Marker>", "<Name>", "<", ">", "</", "&amp;", "&#x0;", "<![CDATA[", "]]>", "<!--", " xmlns=\"", "99999999999999999999", "-1", "1e3", "%zz", "../", "\x00", "\xff"},
+		"<NextContinuationToken>", "</NextContinuationToken>", "<Marker>", "<Name>", "<KeyCount>", "</KeyCount>", "<MaxKeys>", "</MaxKeys>", "<NextMarker>", "-2", "-9223372036854775808", "<", ">", "</", "&amp;", "&#x0;", "<![CDATA[", "]]>", "<!--", " xmlns=\"", "99999999999999999999", "-1", "1e3", "%zz", "../", "\x00", "\xff"},
 	"m3u8": {"#EXTM3U\n", "#EXT-X-VERSION:", "#EXT-X-TARGETDURATION:", "#EXT-X-MEDIA-SEQUENCE:", "#EXTINF:", "#EXT-X-STREAM-INF:", "#EXT-X-I-FRAME-STREAM-INF:", "#EXT-X-MEDIA:", "#EXT-X-KEY:", "#EXT-X-MAP:", "#EXT-X-BYTERANGE:",
 		"#EXT-X-DISCONTINUITY\n", "#EXT-X-DISCONTINUITY-SEQUENCE:", "#EXT-X-PROGRAM-DATE-TIME:", "#EXT-X-DATERANGE:", "#EXT-X-ENDLIST\n", "#EXT-X-START:", "#EXT-X-CUE-OUT:", "#EXT-X-CUE-OUT-CONT:", "#EXT-X-CUE-IN\n", "#EXT-OATCLS-SCTE35:",
 		"#EXT-X-SCTE35:", "#EXT-SCTE35:", "#EXT-X-PLAYLIST-TYPE:", "#EXT-X-I-FRAMES-ONLY\n", "#EXT-X-ALLOW-CACHE:", "#EXT-X-INDEPENDENT-SEGMENTS\n", "#WV-AUDIO-CHANNELS ", "#WV-CYPHER-VERSION ", "#EXT-X-", "#",
